@@ -167,6 +167,7 @@ func checkC04(r *evid.Run) {
 		checkEncoders(r, d, cs)
 		checkEncodersMassive(r, pool, d, cs[d.N%len(cs)])
 	})
+	sessionPhase(r) // Session.tla: the calls this property owns, after every other call of the alphabet
 	r.Set("exhaustive", true)
 	r.Set("rule", "every forest up to the bound over 4 names x {JSON, YAML, TOML(single root)} x {From-Markdown iter, From-Markdown slice, From-Root}, decoded with the decoders gtree links and compared structurally; each under hostile concretisations of the chunks; non-trivial = at least 2 nodes")
 	r.Assume("the specification decides the structure handed to the encoders; that a name survives quoting is observed on the listed chunk pools only (third-party encoders)")
